@@ -252,10 +252,12 @@ func c18MinMax(c *Ctx, fd *ast.FuncDecl, name string, smaller, intFam bool) {
 	v := c.view(fd)
 	// the fold call: the one effect on every path
 	var fold *TCall
+	var foldEnv map[types.Object]Term
 	for _, p := range paths {
 		for _, s := range p.Effects() {
 			if s.Kind == "call" && s.Call != nil && fold == nil {
 				fold = s.Call
+				foldEnv = s.Env
 			} else if s.Kind == "call" && s.Call != nil && fold != nil && key(*s.Call) == key(*fold) {
 				continue
 			} else {
@@ -315,7 +317,7 @@ func c18MinMax(c *Ctx, fd *ast.FuncDecl, name string, smaller, intFam bool) {
 		rob.Undecided("reducer does not have two named parameters")
 		return
 	}
-	bodyPaths := c.NewSX().RunStmts(fl.Body.List, nil)
+	bodyPaths := c.NewSX().RunStmts(fl.Body.List, foldEnv) // with the environment the literal captures (functions handed to a shared helper)
 	for _, bp := range bodyPaths {
 		if bp.Why != "" {
 			rob.Undecided("reducer outside the path vocabulary: %s", bp.Why)
@@ -463,7 +465,11 @@ func c18MinMax(c *Ctx, fd *ast.FuncDecl, name string, smaller, intFam bool) {
 	}
 	if good {
 		// the flag starts false
-		good = c.declaredZeroObj(fd, present)
+		if t, ok := foldEnv[present]; ok {
+			good = isConstBoolTerm(simplify(t), false) // its value when the fold starts
+		} else {
+			good = c.declaredZeroObj(fd, present)
+		}
 	}
 	pob.Check(good, "presence flag (initially false, set on every reducer invocation) selects between the fold result and 0", "result selection is not `if present { return fold } else { return 0 }` with a flag that starts false")
 }
